@@ -85,7 +85,7 @@ func init() {
 		Rule: "case kinds by k mod 4: (0) Node: a fully populated base node (every schema field, nested persons with contacts, external references with hashes; separator-free text), a permuted presentation of it, and for EVERY mutation site enumerated by reflection " +
 			"(each field path incl. nested persons/contacts/external references/hashes/authority, dates +7 s; nanos changes must stay equal) a single-attribute mutant: reflexivity, symmetry, transitivity, Equal<=>Checksum equality, permutation invariance, mutant unequal; " +
 			"(1) Edge triples the same way; (2) NodeList: permuted nodes/edges/targets/roots equal, single-attribute mutants of any node, edge, root unequal; (3) random pairs/triples with arbitrary text (TEXT_ANY) for the equivalence laws and Equal<=>Checksum, " +
-			"plus the crafted separator-collision pairs of the known finding. distinct = hash of (kind, base value, mutation path); non-trivial = mutant at a nested path or permutation of >=2 elements.",
+			"plus the crafted separator-collision pairs of the known finding. After the mutants, the SAME node (and list) value is compared and hashed, changed in place and asked again: the answers must equal those for a fresh copy of the changed value. distinct = hash of (kind, base value, mutation path); non-trivial = mutant at a nested path or permutation of >=2 elements.",
 		Assumptions: []string{"verdict cases use separator-free text without digits in map values (known finding flatstring-separator-collision covers the rest)", "multiset changes of list attributes and the order of a person's contacts are not judged"},
 		NCases: func(tier string) int {
 			if tier == "thorough" {
